@@ -5,6 +5,8 @@ cd "$(dirname "$0")"
 export CARGO_NET_OFFLINE=true
 mkdir -p .build evidence
 python3 tools/regen.py /repo coq/Guards.v .build/regen.json
+python3 tools/skel.py /repo coq/GenCore.v .build/skel.json
+python3 tools/skelagg.py /repo coq/GenAgg.v .build/skelagg.json
 ( cd coq && coq_makefile -f _CoqProject -o Makefile >/dev/null && timeout 3000 make -j16 -k >../.build/coq_setup.log 2>&1 || { tail -30 ../.build/coq_setup.log; echo "coq build had failures (reported per property by ./check)"; } )
 [ -f harness/Cargo.lock ] || cp /repo/Cargo.lock harness/Cargo.lock
 ( cd harness && CARGO_TARGET_DIR=/verif/.build/target timeout 3000 cargo build --offline --bins 2>&1 | tail -3 )
